@@ -88,8 +88,8 @@ SOURCE_KINDS = ['text', 'path', 'bytesio', 'chunked', 'buffered']
 
 def make_source(kind, data, scratch, name, chunks=(7, 1, 64, 3), bufsize=16, fail_at=None, fail_once=False):
     """Returns (object to hand to the reader, closer, stream-or-None).
-    `data` is text (str)."""
-    raw = data.encode('utf-8')
+    `data` is text (str), or bytes when the content is not a whole number of characters (then not for kind 'text')."""
+    raw = data if isinstance(data, bytes) else data.encode('utf-8')
     if kind == 'text':
         return data, (lambda: None), None
     if kind == 'path':
